@@ -1,0 +1,21 @@
+//go:build verif
+// +build verif
+
+package filetracker
+
+// Accessors for the verification harness (build tag verif): the tracker's observation
+// points are package-internal. No behaviour is added here.
+
+// VerifTracker wraps a TFile that has no backing store or file.
+type VerifTracker struct{ t *TFile }
+
+// VerifNewTracker returns an empty write tracker.
+func VerifNewTracker() *VerifTracker { return &VerifTracker{t: newTFile(nil, nil, "verif")} }
+
+// TrackWrite records a write.
+func (v *VerifTracker) TrackWrite(offset, length int64) { v.t.trackWrite(offset, length) }
+
+// GetRangeToRead returns the contiguous length and whether it comes from the mutable layer.
+func (v *VerifTracker) GetRangeToRead(offset, length int64) (int64, bool) {
+	return v.t.getRangeToRead(offset, length)
+}
